@@ -1941,6 +1941,9 @@ impl Tags {
         GOp::Range { incl: false } => self.add("range.excl"),
         GOp::Ctl(c) => self.add(&format!("ctl.{}", c)),
       }
+      if matches!(op, GOp::Range { .. }) && (matches!(&t.t2, GType2::Name(..)) || matches!(r, GType2::Name(..))) {
+        self.add("range.named-bound");
+      }
       self.t2(r);
     }
   }
@@ -2047,6 +2050,10 @@ pub fn tags(g: &GS) -> BTreeSet<String> {
     }
     if r.name.starts_with('$') {
       t.add("socket.def");
+      let plain = r.name.trim_start_matches('$');
+      if g.rules.iter().any(|o| o.name == plain) {
+        t.add("socket.same-name-as-rule");
+      }
     }
     match r.assign {
       Assign::Eq => {}
